@@ -1434,3 +1434,6 @@ def _hs_get(M, fr, n, a):
     for i, e in enumerate(hs.items):
         if M.branch(val_eq(M, fr, e, a[1])): return some(rs[i])
     return none()
+
+@reg(r'^<std::path::PathBuf as std::ops::Deref>::deref$|^<std::path::PathBuf as std::convert::AsRef<.*>>::as_ref$|^std::path::Path::new$|^std::path::PathBuf::as_path$|^<std::path::Path as std::convert::AsRef<.*>>::as_ref$|^std::path::Path::to_path_buf$|^<std::path::PathBuf as std::convert::From<.*>>::from$')
+def _path_ident(M, fr, n, a): return a[0]
